@@ -638,13 +638,71 @@ Proof.
     destruct H as [ch2 H]. vm_compute in H. discriminate.
 Qed.
 
-(* (C) a '$' inside a segment: SplitDynamicPath cuts one character before it,
-   so the update {$mul: {"ab$[].c": 2}} is applied to the field "a" *)
-Theorem dollar_inside_segment_refuted m :
+(* (C, repaired by /repo 4eddedf) a positional operator is only recognised at
+   the START of a path segment: SplitDynamicPath cuts the path exactly at a
+   '.' separator (or at the very beginning), so the array it resolves against
+   is named by a true segment-prefix of the path in the update *)
+Lemma sapp_nil_r s : (s ++ "")%string = s.
+Proof. induction s as [|c t IH]; [reflexivity|]. cbn. rewrite IH. reflexivity. Qed.
+
+Lemma sapp_assoc a : forall b c, ((a ++ b) ++ c)%string = (a ++ (b ++ c))%string.
+Proof. induction a as [|x t IH]; intros b c; [reflexivity|]. cbn. rewrite IH. reflexivity. Qed.
+
+Lemma string_rev_app_spec s : forall acc, string_rev_app s acc = (string_rev_app s "" ++ acc)%string.
+Proof.
+  induction s as [|c t IH]; intro acc; [reflexivity|]. cbn [string_rev_app].
+  rewrite (IH (String c acc)), (IH (String c ""%string)), sapp_assoc. reflexivity.
+Qed.
+
+Lemma split_dollar_go_spec s : forall acc start before rest,
+  split_dollar_go s acc start = Some (before, rest) ->
+  starts_dollar rest = true /\
+  exists mid, before = (string_rev acc ++ mid)%string /\ s = (mid ++ rest)%string /\
+              ((mid = ""%string /\ start = true) \/ exists m', mid = (m' ++ ".")%string).
+Proof.
+  induction s as [|c t IH]; intros acc start before rest H; [discriminate|].
+  cbn [split_dollar_go] in H. destruct (start && Ascii.eqb c "$"%char) eqn:E.
+  - injection H as <- <-. apply andb_true_iff in E. destruct E as [-> E]. apply Ascii.eqb_eq in E. subst c.
+    split; [reflexivity|]. exists ""%string. split; [rewrite sapp_nil_r; reflexivity|]. split; [reflexivity|]. left. auto.
+  - destruct (IH _ _ _ _ H) as (D & mid & Eb & Et & Hm). split; [exact D|].
+    exists (String c mid). split; [|split].
+    + rewrite Eb. unfold string_rev. cbn [string_rev_app].
+      rewrite (string_rev_app_spec acc (String c ""%string)), sapp_assoc. reflexivity.
+    + cbn. rewrite Et. reflexivity.
+    + right. destruct Hm as [[-> Hs]|[m' ->]].
+      * exists ""%string. apply Ascii.eqb_eq in Hs. subst c. reflexivity.
+      * exists (String c m'). reflexivity.
+Qed.
+
+Lemma drop_last_cons x u : u <> ""%string -> drop_last (String x u) = String x (drop_last u).
+Proof. destruct u; [congruence | reflexivity]. Qed.
+
+Lemma drop_last_snoc m c : drop_last (m ++ String c "")%string = m.
+Proof.
+  induction m as [|x t IH]; [reflexivity|]. cbn [append].
+  rewrite drop_last_cons by (destruct t; discriminate). rewrite IH. reflexivity.
+Qed.
+
+Theorem split_dollar_at_segment_start ps before rest :
+  split_dollar ps = Some (before, rest) ->
+  ps = (before ++ rest)%string /\ starts_dollar rest = true /\
+  (before = ""%string \/ before = (drop_last before ++ ".")%string).
+Proof.
+  unfold split_dollar. intro H. destruct (split_dollar_go_spec _ _ _ _ _ H) as (D & mid & Eb & Et & Hm).
+  cbn in Eb. subst before. split; [exact Et|]. split; [exact D|].
+  destruct Hm as [[-> _]|[m' ->]]; [left; reflexivity | right].
+  rewrite drop_last_snoc. reflexivity.
+Qed.
+
+(* the former witness: "ab$[].c" is a plain path now; the update creates the
+   field it names and leaves "a" alone *)
+Theorem dollar_inside_segment_is_plain m :
+  plain "ab$[].c" /\
   apply_with m [("a", VArr [VDoc [("c", VInt32 1)]]); ("k", VInt32 0)] []
              [("$mul", VDoc [("ab$[].c", VInt32 2)])] false [] 0 =
-  Ok ([("a", VArr [VDoc [("c", VInt32 2)]]); ("k", VInt32 0)], [("a.0.c", VInt32 2)]).
-Proof. reflexivity. Qed.
+  Ok ([("a", VArr [VDoc [("c", VInt32 1)]]); ("k", VInt32 0); ("ab$[]", VDoc [("c", VInt32 0)])],
+      [("ab$[].c", VInt32 0)]).
+Proof. split; reflexivity. Qed.
 
 (* structural equality decides equality: docsEqual is exactly "same document" *)
 Lemma value_eqb_eq : forall a b, value_eqb a b = true -> a = b.
@@ -679,3 +737,10 @@ Proof.
   - intro H. destruct (value_eqb (VDoc before) (VDoc after)) eqn:E; [|reflexivity].
     apply value_eqb_eq in E. congruence.
 Qed.
+
+(* a rejected arithmetic result (Missing: int64 overflow, Decimal128 not
+   representable, non-number) rejects the operator invocation *)
+Lemma arith_rejection_rejects_update f s ps v :
+  f (if is_missing (Get (fst s) ps) then VInt32 0 else Get (fst s) ps) v = Ok VMissing ->
+  apply_arith f s ps v = Err.
+Proof. intro H. unfold apply_arith. rewrite H. reflexivity. Qed.
